@@ -324,7 +324,7 @@ EXTRA2 = {
     "C20": " Also decided: the MAP / zero-sample curvature is the Hamiltonian's at the current position and the eager and compiled CG behind every solve agree term by term (rules shared with C19 / C15); the entry point raises its refusals.",
     "C26": " Also decided: shareRange tiles range(nwork) (case split on integer terms); statistics methods never return the stored expansion point; Welford's product is Hermitian.",
     "C28": " Also decided: mode lengths and log quantities of a harmonic grid come from one mode-distributor result; the classic Matern fluctuation amplitude, evaluated as a term on a two-bin model, is the standard deviation of the realisations.",
-    "C30": " Also decided: no log(1+x) / exp(x)-1 spelled out; value_reshaper's case table is complete; inverse transforms apply no clamp; log-space tables hold unshifted quantiles and each of scale / loc is applied exactly once.",
+    "C30": " Also decided: no log(1+x) / exp(x)-1 spelled out; value_reshaper's case table is complete; inverse transforms apply no clamp; log-space tables hold unshifted quantiles and each of scale / loc is applied exactly once. Both transforms route their parameters through value_reshaper in every branch.",
     "C32": " Also decided: a turning or diverging sub-tree is never merged (unconditional disjuncts of the keep-old predicate); the sub-tree U-turn loop index stays in its declared range; a NaN weight difference never yields a positive transition probability (abstract evaluation).",
     "C33": " Also decided: norm special cases are keyed by the exact order; unstack counts pieces along the split axis; where() chooses its broadcast target among all three operands; mean_and_std squares moduli; a specification known to be None is not itself flattened.",
     "C34": " Also decided: the analytic prior term uses the expansion point first and the inner product of the mean with itself.",
@@ -332,7 +332,13 @@ EXTRA2 = {
     "C29": " Also decided: per-interval factors of the integrated Wiener process stand under the time-axis expansion; optional numeric arguments are tested with `is None`; the scalar wrapper lifts drift and amplitude from their own values.",
     "C31": " Also decided: parent() divides by the level's own parent_splits; the flat grid reads the per-level shapes from the wrapped grid; the log-grid pixel volume is the difference of its edges.",
     "C35": " Also decided: every accepted constructor option is read and no computed local is dropped; explicit shifts around an FFT-order transform are oriented (fftshift out, ifftshift in); a single line of sight is not mapped over its coordinate axis.",
-    "C36": " Also decided: residual diagnostics of a frozen likelihood insert the frozen values; the classic normalized_residual keeps no state between samples; parallel lists handed to zip are filled together; classic and JAX chi-square conventions agree on complex residuals (one recorded finding: they do not)."
+    "C36": " Also decided: residual diagnostics of a frozen likelihood insert the frozen values; the classic normalized_residual keeps no state between samples; parallel lists handed to zip are filled together; classic and JAX chi-square conventions agree on complex residuals (one recorded finding: they do not).",
+    "C01": " Missing (None) blocks are tested before use in every combiner, and a partial-space diagonal is permuted into domain order before it is reshaped.",
+    "C02": " Also decided: an apply that uses a volume-weighted reduction of its input distinguishes the modes (the reduction is not self-adjoint on non-uniform volumes).",
+    "C14": " Also decided: the relative energy criterion is not evaluated as 0/0 between two vanishing energies.",
+    "C22": " Also decided: every communicator argument is bound to the callee's `comm` parameter (resolved against the signature).",
+    "C27": " Also decided: module globals that mirror arguments are assigned on every call; a dry run hands the position on; constructed refusals are raised.",
+    "C12": " An argument tested with callable() is not called untested."
 }
 for _d in (EXTRA, EXTRA2):
     for _k, _v in _d.items():
